@@ -5,6 +5,9 @@ EXTENDS GlueInstall
 \* attribute vectors (one per config, so that their state spaces add instead of multiplying)
 ModAB == {"a", "b"}
 ModABC == {"a", "b", "c"}
+NoMods == {}
+OnlyC == {"c"}
+ModBC == {"b", "c"}
 FlavBoth == [m \in ModAB |-> IF m = "a" THEN "ok" ELSE "none"]          \* a: own glue (+ built-in, see HasB); b: built-in only
 FlavRaise == [m \in ModAB |-> IF m = "a" THEN "raises" ELSE "ok"]
 FlavImports == [m \in ModABC |-> IF m = "a" THEN "imports" ELSE IF m = "c" THEN "ok" ELSE "none"]
